@@ -12,7 +12,8 @@ for name, (prop, _) in MUTANTS.items():
         continue
     env = dict(os.environ, DSIM_MUTANT=name)
     t0 = time.time()
-    p = subprocess.run([os.path.join(ROOT, "check"), prop, "--seconds", "20", "--no-evidence"],
+    secs = {"c14_stop_waits_for_open_request": "55"}.get(name, "20")     # (needs the full quick budget of C14)
+    p = subprocess.run([os.path.join(ROOT, "check"), prop, "--seconds", secs, "--no-evidence"],
                        capture_output=True, text=True, env=env, cwd=ROOT, timeout=900)
     lines = [l for l in p.stdout.splitlines() if l.startswith(("VIOLATION", "violation kind"))]
     res[name] = {"property": prop, "exit": p.returncode, "detected": p.returncode == 1,
